@@ -27,7 +27,6 @@ var reviewedTable = []reviewedEntry{
 	{"seqio.slowGenBankOriginParser", "SLICE", "from:Token", 1, "extent is only incremented after a check extent < len(q), so extent <= len(q) when the line is copied"},
 	{"seqio.quotedQualifierParser", "SLICE", "local", 3, "i = bytes.Index(token, p) >= 0 with len(p) >= 1, so i+1 and i+len(p) are within token, and n = copy(...) keeps i+1+n within it"},
 	{"seqio.QualifierParser", "IDX", "captured-literal", 1, "qtype is one of the three known qualifier kinds after the UnknownQualifier case; valueParsers has three entries"},
-	{"seqio.Scanner.Scan", "IDX", "made", 1, "argmax is 0 or an index of errs, which has one entry per known parser (the table of parsers is not empty)"},
 	{"gts.Props.Index", "IDX", "elem", 1, "shape invariant: every qualifier row holds at least its name (rows are only built by Props.Set/Add)"},
 	{"gts.Props.Get", "IDX", "param#-1", 1, "i is a result of Props.Index other than -1, so it indexes props"},
 	{"gts.Props.Get", "SLICE", "elem", 1, "shape invariant: every qualifier row holds at least its name"},
@@ -215,6 +214,11 @@ func (t *trapCtx) decideSite(s Site) (status, detail string) {
 					why = append(why, "index is the range key over a collection of the same length")
 				}
 			}
+		}
+		// best-index-so-far over a collection that is not empty
+		if !upper && t.argmaxOver(info, asg, b.e, base, s.Node, s.Pkg) {
+			upper = true
+			why = append(why, "index is 0 or a range key over the collection, which holds at least one element (one per entry of a non-empty table)")
 		}
 		// half: n := len(base)/2 with len(base) != 0 established
 		if !upper {
